@@ -41,6 +41,7 @@ type slotTable struct {
 type slotInput struct {
 	Tables      []slotTable `json:"tables"`
 	SweepRounds int         `json:"sweep_rounds"`
+	SweepIvs    []int64     `json:"sweep_intervals"` // intervals for which the dense sweep runs
 	FutureReps  int         `json:"future_reps"`
 }
 
@@ -199,8 +200,12 @@ func TestVerifSlot(t *testing.T) {
 
 		// ---- 2. dense sweep: every ms of the first rounds, every n (property predicates, no table)
 		sizes := make(chan int, 128)
-		for n := 1; n <= 100; n++ {
-			sizes <- n
+		for _, si := range in.SweepIvs {
+			if si == iv {
+				for n := 1; n <= 100; n++ {
+					sizes <- n
+				}
+			}
 		}
 		close(sizes)
 		for w := 0; w < workers; w++ {
